@@ -112,6 +112,9 @@ func propC15(ch core.Chooser, st *core.Stats) error {
 			return fmt.Errorf("%s: Close failed: %v", when, err)
 		}
 		db = nil
+		if core.Pct(ch, "reseed", 30) {
+			pinSeed(uint32(ch.Int("newseed", 0, 1<<30))) // see hist.reseed
+		}
 		var err error
 		db, err = dbx.Open(env.Dir, cfg, env.FS)
 		if err != nil {
